@@ -1,4 +1,5 @@
 import MpsProofs.Blame
+import MpsProps.C04Byz
 import MpsGen.Session
 /-
   C04 — Blame is sound: who a handler names, and why (handler level, all scripts and histories).
